@@ -65,7 +65,10 @@ def register(T, repo):
         req += list(requires)
         ens = [('progress', lambda A, r: And(
             pos_of(A) > zint(A['start']),
-            pos_of(A) <= zint(A['src'].ln)))] + list(ensures)
+            pos_of(A) <= zint(A['src'].ln))),
+            ('source-slice', lambda A, r: Or(
+                zbool(r.fields['pos_fix']),
+                tm.exact_full(r, A['src'])))] + list(ensures)
         c = FContract(S + name, ghosts=src_ghost, params=params,
                       requires=req,
                       result=lambda A: tm.DocTok(A['src'], classes),
@@ -126,8 +129,9 @@ def register(T, repo):
     helper('scan_arg_token',
            requires=[('is-hash', lambda A: A['src'].at(
                zint(A['start'])) == ord('#'))],
-           ensures=[('at-start', lambda A, r: zint(r.fields['pos']) ==
-                     zint(A['start']))],
+           ensures=[('at-start', lambda A, r: And(
+               zint(r.fields['pos']) == zint(A['start']),
+               pos_of(A) == zint(A['start']) + zint(tm.tlen(r))))],
            classes=[D + 'SpecialToken', D + 'ArgumentToken'])
 
     # ---------------------------------------------------------- scan_macro
@@ -137,7 +141,13 @@ def register(T, repo):
            ensures=[('text-is-error-mark', lambda A, r: Implies(
                tm.cls_is(A['$ex'], r, D + 'TextToken'),
                And(zbool(r.fields['pos_fix']),
-                   zint(r.fields['pos']) == zint(A['start']))))],
+                   zint(r.fields['pos']) == zint(A['start'])))),
+               ('tiling', lambda A, r: Implies(
+                   tm.cls_is(A['$ex'], r, D + 'MacroToken', D + 'BeginToken',
+                             D + 'EndToken', D + 'ItemToken',
+                             D + 'AccentToken'),
+                   And(zint(r.fields['pos']) == zint(A['start']),
+                       pos_of(A) == zint(A['start']) + zint(tm.tlen(r)))))],
            classes=[D + 'MacroToken', D + 'BeginToken', D + 'EndToken',
                     D + 'ItemToken', D + 'AccentToken', D + 'VerbatimToken',
                     D + 'TextToken'])
@@ -179,7 +189,7 @@ def register(T, repo):
         e = '\\end{verbatim}'
         return And(
             Implies(tm.cls_is(ex, r, D + 'BeginToken'),
-                    And(p == zint(A['start']),
+                    And(p == zint(A['start']), L == 6,
                         pos_of(A) == zint(A['start']) + 6)),
             Implies(tm.cls_is(ex, r, D + 'TextToken'),
                     And(zbool(r.fields['pos_fix']),
@@ -194,7 +204,8 @@ def register(T, repo):
            requires=[('after-begin', lambda A: And(
                pos_of(A) == zint(A['start']) + 6,
                pos_of(A) <= zint(A['src'].ln),
-               sym.seq_eq(A['mac'], '\\begin')))],
+               sym.seq_eq(A['mac'], '\\begin'),
+               sym.seq_startswith(A['src'], A['mac'], A['start'])))],
            ensures=[('verbatim-token', verbatim_post)],
            classes=[D + 'VerbatimToken', D + 'BeginToken', D + 'TextToken'])
 
@@ -218,6 +229,15 @@ def register(T, repo):
                        zint(tm.tlen(r)) == 1,
                        lift_str(r.fields['txt']).at(0) ==
                        A['src'].at(zint(A['old']['pos'])))))),
+            # C03 at scanner level: tokens tile the source -- every token
+            # that is not an error mark or verbatim material starts where
+            # the scanner stood and covers exactly the characters consumed
+            ('tiling', lambda A, r: Or(
+                zbool(r.fields['pos_fix']),
+                tm.cls_is(A['$ex'], r, D + 'VerbatimToken'),
+                And(zint(r.fields['pos']) == zint(A['old']['pos']),
+                    pos_of(A) == zint(A['old']['pos']) + zint(tm.tlen(r)),
+                    tm.exact_full(r, A['src'])))),
         ],
         effects=set_pos_fresh,
         olds=lambda A: {'pos': A['self'].fields['pos']}))
